@@ -10,10 +10,25 @@ import (
 //
 //go:norace
 func P(site int) {
-	if pOn && pMask[site] && curRun != nil && curTask >= 0 {
+	if curRun == nil || curTask < 0 {
+		return
+	}
+	if pOn && pMask[site] {
 		do(opYield, int64(site), 0, 0, 0)
+		return
+	}
+	// a task that passes thousands of statements without a single scheduling point is spinning (a busy
+	// wait on something the simulator does not know): make it yield, so that others run and the step cap
+	// can call it a hang
+	pSpin++
+	if pSpin >= spinYield {
+		do(opYield, -int64(site), 0, 0, 0)
 	}
 }
+
+const spinYield = 2000
+
+var pSpin int
 
 // Yield is an explicit scheduling point in harness code.
 func Yield() {
